@@ -211,7 +211,7 @@ pub open spec fn passmod_kids(pm: PasswordModify) -> Seq<T> { opt_ctx(0, pm.user
 //@ ret r
 //@ insert entry
         broadcast use ax_str_bytes;
-//@ insert before "let val = if pm_vec.is_empty() {"
+//@ insert before-let val
         proof {
             lemma_trees_len(pm_vec@, pm_vec@.len());
             assert(trees(pm_vec@, pm_vec@.len()) =~= passmod_kids(pm)); //# C19.password_modify_children_0_1_2_rfc3062
